@@ -223,11 +223,22 @@ func GenerateGRPC(r *lp.Rng, index int) *Design {
 				mt.GRPC.Metadata = append(mt.GRPC.Metadata, Mapped{Attr: n1}, Mapped{Attr: n2})
 			}
 			pl.Type.Object = append(pl.Type.Object, &Field{Name: "note", Att: tag(&Att{Type: &Type{Prim: "String"}}, num)})
+			// the string and the boolean are required: their zero values ("" and false) are sent, not left out
+			pl.Required = []string{"m_string", "m_boolean"}
 			mt.Payload = pl
 			mt.Result = &Att{Type: &Type{Prim: "String"}}
 			s.Methods = append(s.Methods, mt)
 		}
 		d.Services = append(d.Services, s)
+	}
+	if index >= 1000 {
+		// (built on its own, index 1000+) an attribute of an alias type with an Enum of its own, carried in gRPC metadata
+		d.Types = append(d.Types, &TypeDef{Name: "Slug", Kind: "type", Att: &Att{Type: &Type{Prim: "String"}, Val: &Validation{Pattern: "^[a-z]+$"}}})
+		d.Services = append(d.Services, &Service{Name: "aliasmd", GRPC: true, Methods: []*Method{{Name: "tagged", GRPC: &GRPCMap{Metadata: []Mapped{{Attr: "slug"}}},
+			Payload: &Att{Type: &Type{IsObject: true, Object: []*Field{
+				{Name: "slug", Att: tag(&Att{Type: &Type{Ref: "Slug"}, Val: &Validation{Enum: []any{"abc", "xyz"}}}, 1)},
+				{Name: "note", Att: tag(&Att{Type: &Type{Prim: "String"}}, 2)}}}},
+			Result: &Att{Type: &Type{Prim: "String"}}}}})
 	}
 	return d
 }
